@@ -106,7 +106,7 @@ def design_jobs(ctx):
     # ---- stack: transcription refines the contract; the gap lists stay empty; negative controls
     if q:
         jobs.append(("stack_mc", "RAStackMC", stack_cfg(ctx, "stack_mc", [4, 12], [0, 16], [1, 3], [5], "MCDeltas", 3, 8), "ok", 8))
-        jobs.append(("stack_mc4", "RAStackMC", stack_cfg(ctx, "stack_mc4", [4, 16], [4, 16], [1], [5], "MCDeltas", 4, 7), "ok", 6))
+        jobs.append(("stack_mc4", "RAStackMC", stack_cfg(ctx, "stack_mc4", [4, 16], [4, 16], [1], [5], "MCDeltas", 4, 6), "ok", 6))
     else:
         jobs.append(("stack_mc", "RAStackMC", stack_cfg(ctx, "stack_mc", [4, 8, 12], [0, 4, 16], [1, 3], [5], "MCDeltas", 3, 12), "ok", 12))
         jobs.append(("stack_mc4", "RAStackMC", stack_cfg(ctx, "stack_mc4", [4, 16], [4, 16], [1], [5], "MCDeltas", 4, 8), "ok", 6))
@@ -206,7 +206,7 @@ def export_jobs(ctx):
 
 def export_behaviours(ctx):
     scripts = collections.defaultdict(list)
-    cap = 1500 if ctx.quick else 4000
+    cap = 900 if ctx.quick else 4000
 
     def one(job):
         comp, hdr, tag, mod, cfg, sim, depth = job
@@ -309,7 +309,7 @@ def run(ctx):
         sp = ctx.path(f"scripts_{comp}.ndjson")
         vlib.write_ndjson(sp, scs)
         jobs.append((comp, "model", ["script", comp, sp, ctx.path(f"trace_{comp}_model.ndjson")], ctx.path(f"trace_{comp}_model.ndjson"), ctx.seed))
-    nshard, nexec, steps = (2, 120, 40) if q else (6, 250, 60)
+    nshard, nexec, steps = (2, 80, 40) if q else (6, 250, 60)
     for comp in TRACE_MOD:
         for s in range(nshard):
             tp = ctx.path(f"trace_{comp}_r{s}.ndjson")
